@@ -27,7 +27,7 @@ BOUND = {
     "thorough": "L(5,3) x every question position x 11 types x 22 tokens; L(5,3) x ordered trigger pairs x 3 target types x calc/no-calc x 2 trigger types",
 }
 # as-built additions to the bound (kept next to BOUND so that the evidence reports them)
-BOUND = {k: v + "; plus: " + "selects with a default / trigger inside a table-list group (helper nodes get nothing); select defaults naming a choice that looks like arithmetic (65-plus); a namesake of the question in another group/repeat (before/after) with a default of the other kind, 6 token pairs; triggered calculations spelled yes/false/TRUE/true(); 4 function/reference-then-minus tokens; one name deviation: the question's name extends another node's name (<name>_count, <name>x)" for k, v in BOUND.items()}
+BOUND = {k: v + "; plus: " + "12 kinds of thing a trigger cell can name (visible, hidden and metadata questions, sections, several references) x 3 target types; selects with a default / trigger inside a table-list group (helper nodes get nothing); select defaults naming a choice that looks like arithmetic (65-plus); a namesake of the question in another group/repeat (before/after) with a default of the other kind, 6 token pairs; triggered calculations spelled yes/false/TRUE/true(); 4 function/reference-then-minus tokens; one name deviation: the question's name extends another node's name (<name>_count, <name>x)" for k, v in BOUND.items()}
 NAMES = ["a", "b", "c", "d", "e", "f"]
 TYPES = ["text", "integer", "decimal", "date", "time", "dateTime", "select_one c", "geopoint", "image", "calculate", "note"]
 # token -> classification: 's' static, 'd' dynamic, '?' ambiguous
@@ -60,6 +60,10 @@ def gen_tablelist():
                         if dflt is None and not trig:
                             continue
                         yield {"k": "tablelist", "pos": pos, "default": dflt, "trig": trig, "ctx": ctx, "sel": sel}
+    # what the trigger cell names: whatever is accepted must yield the action (nothing is lost silently)
+    for src in ("text", "select_one c", "note", "hidden", "today", "deviceid", "calculate", "group", "repeat", "two-refs", "ref-with-text", "start-geopoint"):
+        for tgt in ("calculate", "text", "background-geopoint"):
+            yield {"k": "trigsrc", "src": src, "tgt": tgt}
     # a select whose default is a choice name that looks like arithmetic
     for name in ("65-plus", "1-a", "a-b", "18-64", "x+y"):
         for ty in ("select_one d", "select_multiple d"):
@@ -200,6 +204,43 @@ def build(case):
 DATE_LIKE = {"date", "dateTime", "geopoint"}
 
 
+def check_trigsrc(case):
+    src, tgt = case["src"], case["tgt"]
+    rows = [{"type": "text", "name": "t0", "label": "T0"}]
+    trig = "${a}"
+    if src in ("group", "repeat"):
+        rows += [{"type": f"begin {src}", "name": "a", "label": "A"}, {"type": "text", "name": "ai", "label": "AI"}, {"type": f"end {src}"}]
+    elif src == "two-refs":
+        rows += [{"type": "text", "name": "a", "label": "A"}]
+        trig = "${a}, ${t0}"
+    elif src == "ref-with-text":
+        rows += [{"type": "text", "name": "a", "label": "A"}]
+        trig = "x ${a}"
+    elif src == "calculate":
+        rows += [{"type": "calculate", "name": "a", "calculation": "1"}]
+    elif src in ("hidden", "today", "deviceid", "start-geopoint"):
+        rows += [{"type": src, "name": "a"}]
+    else:
+        rows += [{"type": src, "name": "a", "label": "A"}]
+    t = {"type": tgt, "name": "x", "trigger": trig}
+    if tgt == "text":
+        t["label"] = "X"
+    if tgt != "background-geopoint":
+        t["calculation"] = "${t0} + 1"
+    rows.append(t)
+    out = run_convert({"survey": rows, "choices": [dict(c) for c in CHOICES]})
+    if out.kind == "crash":
+        return {"outcome": "crash", "nt": False, "viol": [], "tr": len(rows)}
+    if out.kind == "reject":
+        return {"outcome": "reject", "nt": True, "viol": [], "tr": len(rows)}
+    obs = O.Obs(out.xform)
+    acts = [el for el, par, tag in all_setvalues(obs) if el.get("ref") == "/data/x"]
+    viol = []
+    if len(acts) != 1:
+        viol.append((f"triggered-action-lost:trigger-names-{src}", f"{len(acts)} actions for /data/x; trigger cell {trig!r}, target type {tgt}"))
+    return {"outcome": "trigger-ok", "nt": not viol, "viol": viol, "tr": len(rows)}
+
+
 def check_special(case):
     rows = [{"type": "text", "name": "t0", "label": "T0"}]
     if case["k"] == "tablelist":
@@ -252,6 +293,8 @@ def check_special(case):
 
 
 def check_one(case):
+    if case["k"] == "trigsrc":
+        return check_trigsrc(case)
     if case["k"] in ("tablelist", "choicedefault"):
         return check_special(case)
     wb, nodes = build(case)
